@@ -97,6 +97,31 @@ theorem setRPCell_node_ne (d : Nat) (nodes : List NodeObj) (c : Handle) (n : Nat
     simp [this]
   | _ => rfl
 
+theorem setRPCell_nil (d : Nat) (nodes : List NodeObj) (c : Handle) (h : (setRPCell d nodes c).2 = Handle.nil) :
+    c = Handle.nil := by
+  cases c <;> simp [setRPCell] at h ⊢
+
+/-- a nil cell after `nl[k] = SetReaderPos(nl[k], f)` was a nil cell before -/
+theorem writeCell_nil_back (d : Nat) (nodes : List NodeObj) (arrs : Arrs) (arr k a j : Nat)
+    (h : (cells (writeCell arrs arr k (setRPCell d nodes ((cells arrs arr).getD k Handle.nil)).2) a)[j]? = some Handle.nil) :
+    (cells arrs a)[j]? = some Handle.nil := by
+  unfold writeCell at h
+  by_cases haa : arr = a
+  · subst haa
+    by_cases hlt : arr < arrs.length
+    · rw [cells_modify_same _ _ _ hlt, List.getElem?_set] at h
+      by_cases hkj : k = j
+      · subst hkj
+        by_cases hb : k < (cells arrs arr).length
+        · simp only [if_true, hb] at h
+          have := setRPCell_nil d nodes _ (by simpa using h)
+          rw [List.getElem?_eq_getElem hb] at this ⊢
+          simpa using this
+        · simp [hb] at h
+      · simpa [hkj] using h
+    · rw [cells_modify_oob _ _ _ (by omega)] at h; exact h
+  · rw [cells_modify_ne _ _ _ _ haa] at h; exact h
+
 /-- the loop of NodeList.SetReaderPos over cells `k .. k+cnt-1` of array `arr`; `arrs0` is the heap before the loop -/
 theorem trimLoop_spec (d arr : Nat) (arrs0 : Arrs) (N : Nat) :
     ∀ (cnt k : Nat) (nodes : List NodeObj) (arrs : Arrs),
@@ -106,12 +131,13 @@ theorem trimLoop_spec (d arr : Nat) (arrs0 : Arrs) (N : Nat) :
       CellsOK N (trimLoop d arr cnt k nodes arrs).2 ∧
       (∀ a, a ≠ arr → cells (trimLoop d arr cnt k nodes arrs).2 a = cells arrs a) ∧
       (∀ n, (∀ j, k ≤ j → j < k + cnt → (cells arrs0 arr)[j]? ≠ some (Handle.ptr n)) →
-        (trimLoop d arr cnt k nodes arrs).1[n]? = nodes[n]?) := by
+        (trimLoop d arr cnt k nodes arrs).1[n]? = nodes[n]?) ∧
+      (∀ (a j : Nat), (cells (trimLoop d arr cnt k nodes arrs).2 a)[j]? = some Handle.nil → (cells arrs a)[j]? = some Handle.nil) := by
   intro cnt
   induction cnt with
   | zero =>
     intro k nodes arrs _ ok
-    exact ⟨NodesSim.refl _, SameShape.refl _, ok, fun _ _ => rfl, fun _ _ => rfl⟩
+    exact ⟨NodesSim.refl _, SameShape.refl _, ok, fun _ _ => rfl, fun _ _ => rfl, fun _ _ h => h⟩
   | succ cnt ih =>
     intro k nodes arrs h0 ok
     simp only [trimLoop]
@@ -132,8 +158,8 @@ theorem trimLoop_spec (d arr : Nat) (arrs0 : Arrs) (N : Nat) :
         have : ¬ k = j := by omega
         simp [this]
       · rw [cells_modify_oob _ _ _ (by omega)]
-    obtain ⟨r1, r2, r3, r4, r5⟩ := ih (k + 1) (setRPCell d nodes ((cells arrs arr).getD k Handle.nil)).1 _ h1 ok1
-    refine ⟨(setRPCell_sim d nodes _).trans r1, (SameShape.write arrs arr k _).trans r2, r3, ?_, ?_⟩
+    obtain ⟨r1, r2, r3, r4, r5, r6⟩ := ih (k + 1) (setRPCell d nodes ((cells arrs arr).getD k Handle.nil)).1 _ h1 ok1
+    refine ⟨(setRPCell_sim d nodes _).trans r1, (SameShape.write arrs arr k _).trans r2, r3, ?_, ?_, ?_⟩
     · intro a ha
       rw [r4 a ha]
       unfold writeCell
@@ -148,17 +174,33 @@ theorem trimLoop_spec (d arr : Nat) (arrs0 : Arrs) (N : Nat) :
       cases hk : (cells arrs arr)[k]? with
       | none => rw [hk] at hc; simp at hc
       | some c => rw [hk] at hc; simp at hc; rw [hc]
+    · intro a j hj
+      exact writeCell_nil_back d nodes arrs arr k a j (r6 a j hj)
 
 /-! ### SetReaderPos keeps the invariant -/
 
+theorem view_nil_back {arrs arrs' : Arrs}
+    (h : ∀ (a j : Nat), (cells arrs' a)[j]? = some Handle.nil → (cells arrs a)[j]? = some Handle.nil) (sl : Slice)
+    (hm : Handle.nil ∈ view arrs' sl) : Handle.nil ∈ view arrs sl := by
+  obtain ⟨j, hj⟩ := List.getElem?_of_mem hm
+  simp only [view, List.getElem?_take] at hj
+  by_cases hlt : j < sl.len
+  · rw [if_pos hlt] at hj
+    have := h sl.arr j hj
+    apply List.mem_of_getElem? (i := j)
+    simp only [view, List.getElem?_take, if_pos hlt]
+    exact this
+  · rw [if_neg hlt] at hj; cases hj
+
 theorem Inv.reshape {s : St} {top : Nat → Nat} (inv : Inv s top) (nodes' : List NodeObj) (arrs' : Arrs)
-    (hn : NodesSim s.nodes nodes') (sh : SameShape s.arrs arrs') (ok : CellsOK s.nodes.length arrs') :
+    (hn : NodesSim s.nodes nodes') (sh : SameShape s.arrs arrs') (ok : CellsOK s.nodes.length arrs')
+    (hnil : ∀ sl, Handle.nil ∈ view arrs' sl → Handle.nil ∈ view s.arrs sl) :
     Inv ({ s with nodes := nodes', arrs := arrs' } : St) top := by
   have hmono : ∀ {h : Handle}, HWF s top h → HWF ({ s with nodes := nodes', arrs := arrs' } : St) top h := by
     intro h hw
     cases h with
     | ptr m => show m < nodes'.length; rw [hn.1]; exact hw
-    | list sl => exact ⟨sh.swf hw.1, hw.2⟩
+    | list sl => exact ⟨sh.swf hw.1, hw.2.1, hw.2.2.1, fun h => hw.2.2.2 (hnil sl h)⟩
     | _ => trivial
   refine ⟨fun a ha => inv.topz a (by simp at ha; rw [sh.1] at ha; exact ha), (by show CellsOK nodes'.length arrs'; rw [hn.1]; exact ok),
     fun e he => hmono (inv.pool e he), fun kv hkv => ⟨hmono (inv.memo kv hkv).1, (inv.memo kv hkv).2⟩, ?_, inv.own, inv.uniq,
@@ -170,15 +212,16 @@ theorem Inv.reshape {s : St} {top : Nat → Nat} (inv : Inv s top) (nodes' : Lis
 theorem setRP_shape (d : Nat) {s : St} {top : Nat → Nat} (inv : Inv s top) (h : Handle) :
     NodesSim s.nodes (setRP d s h).1.nodes ∧ SameShape s.arrs (setRP d s h).1.arrs ∧
     CellsOK s.nodes.length (setRP d s h).1.arrs ∧
+    (∀ sl, Handle.nil ∈ view (setRP d s h).1.arrs sl → Handle.nil ∈ view s.arrs sl) ∧
     (setRP d s h).1 = ({ s with nodes := (setRP d s h).1.nodes, arrs := (setRP d s h).1.arrs } : St) := by
   cases h with
-  | ptr m => exact ⟨NodesSim.modify _ _ _, SameShape.refl _, inv.cellok, rfl⟩
+  | ptr m => exact ⟨NodesSim.modify _ _ _, SameShape.refl _, inv.cellok, fun _ h => h, rfl⟩
   | list sl =>
-    obtain ⟨r1, r2, r3, _, _⟩ := trimLoop_spec d sl.arr s.arrs s.nodes.length sl.len 0 s.nodes s.arrs (fun _ _ => rfl) inv.cellok
-    exact ⟨r1, r2, r3, rfl⟩
-  | nil => exact ⟨NodesSim.refl _, SameShape.refl _, inv.cellok, rfl⟩
-  | empty p => exact ⟨NodesSim.refl _, SameShape.refl _, inv.cellok, rfl⟩
-  | eof p => exact ⟨NodesSim.refl _, SameShape.refl _, inv.cellok, rfl⟩
+    obtain ⟨r1, r2, r3, _, _, r6⟩ := trimLoop_spec d sl.arr s.arrs s.nodes.length sl.len 0 s.nodes s.arrs (fun _ _ => rfl) inv.cellok
+    exact ⟨r1, r2, r3, view_nil_back r6, rfl⟩
+  | nil => exact ⟨NodesSim.refl _, SameShape.refl _, inv.cellok, fun _ h => h, rfl⟩
+  | empty p => exact ⟨NodesSim.refl _, SameShape.refl _, inv.cellok, fun _ h => h, rfl⟩
+  | eof p => exact ⟨NodesSim.refl _, SameShape.refl _, inv.cellok, fun _ h => h, rfl⟩
 
 theorem setRP_result (d : Nat) (s : St) (h : Handle) :
     (setRP d s h).2 = h ∨ (∃ p, h = Handle.empty p ∧ (setRP d s h).2 = Handle.empty (p + d)) := by
@@ -193,8 +236,8 @@ theorem step_trim_inv (grow : Nat → Nat) {s : St} {top : Nat → Nat} (inv : I
   · rename_i h hg
     split
     · exact ⟨⟨top, inv⟩, Ext.refl _⟩
-    · obtain ⟨hn, sh, ok, heq⟩ := setRP_shape d inv h
-      have inv1 := inv.reshape _ _ hn sh ok
+    · obtain ⟨hn, sh, ok, hnil, heq⟩ := setRP_shape d inv h
+      have inv1 := inv.reshape _ _ hn sh ok hnil
       rw [← heq] at inv1
       have inv2 := inv1.kill i
       have hext : Ext s (((setRP d s h).1.kill i).push (setRP d s h).2) := by
@@ -205,13 +248,13 @@ theorem step_trim_inv (grow : Nat → Nat) {s : St} {top : Nat → Nat} (inv : I
       have hw1 : HWF ((setRP d s h).1.kill i) top h := by
         cases h with
         | ptr m => show m < (setRP d s (Handle.ptr m)).1.nodes.length; rw [hn.1]; exact hw
-        | list sl => exact ⟨sh.swf hw.1, hw.2⟩
+        | list sl => exact ⟨sh.swf hw.1, hw.2.1, hw.2.2.1, fun h => hw.2.2.2 (hnil sl h)⟩
         | _ => trivial
       rcases setRP_result d s h with hr | ⟨p, hp, hr⟩
       · rw [hr]
         cases h with
         | list sl =>
-          refine ⟨_, inv2.push_list sl hw1.1 hw1.2.1 (inv.get_safe hg) ?_ ?_⟩
+          refine ⟨_, inv2.push_list sl hw1.1 hw1.2.1 (inv.get_safe hg) hw1.2.2.2 ?_ ?_⟩
           · intro hm k e slk hk hl
             obtain ⟨e0, h0, _, hlv⟩ := kill_pool_get hk
             obtain ⟨_, hki, rfl⟩ := hlv hl.1
@@ -249,7 +292,7 @@ theorem setRP_frame (d : Nat) {s : St} {top : Nat → Nat} (inv : Inv s top) (h 
     have : m ≠ n := fun h => hn (by simp [trimNodes, h])
     simp [this]
   | list sl =>
-    obtain ⟨r1, _, _, r4, r5⟩ := trimLoop_spec d sl.arr s.arrs s.nodes.length sl.len 0 s.nodes s.arrs (fun _ _ => rfl) inv.cellok
+    obtain ⟨r1, _, _, r4, r5, _⟩ := trimLoop_spec d sl.arr s.arrs s.nodes.length sl.len 0 s.nodes s.arrs (fun _ _ => rfl) inv.cellok
     refine ⟨r1.1, fun n hn => ?_, fun a ha => ?_⟩
     · apply r5 n
       intro j _ hj hc
